@@ -36,8 +36,8 @@ Pieces == <<
   S("@$(which ls)", "i"),                                                                           \* 56
   S("$(echo hi)", "s:subproc_captured"), S("$[echo hi]", "s:subproc_uncaptured"),     \* 57-58
   S("!(echo hi)", "s:subproc_captured_object"), S("![echo hi]", "s:subproc_captured_hiddenobject"), \* 59-60
-  W("café"),                                                                                                 \* 61
-  W("ﬁle.txt"), W("10µs"), W("ＡＢｃ"), S("$ﬁle", "e:ﬁle")                                                       \* 62-65 compatibility characters
+  W("caf~u00e9~"),                                                                                                 \* 61
+  W("~ufb01~le.txt"), W("10~u00b5~s"), W("~uff21~~uff22~~uff43~"), S("$~ufb01~le", "e:~ufb01~le")                                                       \* 62-65 compatibility characters
 >>
 
 Forms == <<
